@@ -1,9 +1,18 @@
 #!/bin/sh
-# Build the whole framework from files on disk only (offline).
-set -e
+# Build the framework from files on disk only (offline): every claimed property's theorems, driver and harness binary.
 cd "$(dirname "$0")"
 export CARGO_NET_OFFLINE=true
 mkdir -p .build work evidence
-(cd lean && lake build)
-(cd harness && cargo build --offline --bins)
-echo "setup done"
+ids=$(python3 -c "import json;print(' '.join(c['property_id'] for c in json.load(open('MANIFEST.json'))['checks']))")
+fail=0
+for id in $ids; do
+  lc=$(echo "$id" | tr 'A-Z' 'a-z')
+  mod=$(python3 -c "import json;print(json.load(open('props/$id.json'))['props_module'])")
+  (cd lean && lake build "$mod" "yuivd_$lc") || { echo "setup: lean build failed for $id"; fail=1; }
+done
+for id in $ids; do
+  lc=$(echo "$id" | tr 'A-Z' 'a-z')
+  (cd harness && cargo build --offline --bin "$lc") || { echo "setup: cargo build failed for $id"; fail=1; }
+done
+echo "setup done (fail=$fail)"
+exit $fail
